@@ -533,10 +533,16 @@ func (tr *Trans) store(a *Addr, val string, pos token.Pos) {
 	case RField:
 		comp, srt := tr.eng.sorts.fieldComp(a.StructT, a.Field)
 		tr.checkWrite(comp, a.Ref, pos, comp)
+		if len(a.Path) == 0 {
+			tr.checkIsolation(a.T, newRoot, pos, comp)
+		}
 		tr.upd(comp, srt, a.Ref, newRoot)
 	case RElem:
 		comp, srt := tr.eng.sorts.elemComp(a.T)
 		tr.checkWrite(comp, a.Ref, pos, comp)
+		if len(a.Path) == 0 {
+			tr.checkIsolation(a.T, newRoot, pos, comp)
+		}
 		tr.upd(comp, srt, a.Ref, fmt.Sprintf("(store %s %s %s)", tr.sel(comp, srt, a.Ref), a.Idx, newRoot))
 	case RHeapCell:
 		comp, srt := tr.eng.sorts.cellComp(a.T)
@@ -550,6 +556,7 @@ func (tr *Trans) store(a *Addr, val string, pos token.Pos) {
 		for i, f := range si.Fields {
 			comp, srt := tr.eng.sorts.fieldComp(a.StructT, i)
 			tr.checkWrite(comp, a.Ref, pos, comp)
+			tr.checkIsolation(f.T, fmt.Sprintf("(%s_%s %s)", si.Name, f.Name, tmp), pos, comp)
 			tr.upd(comp, srt, a.Ref, fmt.Sprintf("(%s_%s %s)", si.Name, f.Name, tmp))
 		}
 	}
@@ -1258,6 +1265,7 @@ func (tr *Trans) mapUpdate(fr *Frame, x *ssa.MapUpdate) {
 	k := tr.expr(tr.val(fr, x.Key))
 	v := tr.expr(tr.val(fr, x.Value))
 	tr.assertSafe("(not (= "+m+" 0))", "nil-map-write", x.Pos(), "assignment to entry in nil map")
+	tr.checkIsolation(x.Value.Type(), v, x.Pos(), "mapvalue")
 	tr.mapStore(x.Map.Type(), m, k, v, x.Pos())
 }
 
@@ -1587,4 +1595,41 @@ func (tr *Trans) noReads() map[string][]string {
 		}
 	}
 	return nil
+}
+
+// isolation: the function builds objects of the given struct types that must not share sub-objects of those
+// types with anything that existed before the API call. Every store of a *T, []*T or map[..]*T is checked.
+func (tr *Trans) isolatedType(t types.Type) string {
+	if tr.contract == nil || len(tr.contract.Isolated) == 0 {
+		return ""
+	}
+	for _, n := range tr.contract.Isolated {
+		switch u := t.Underlying().(type) {
+		case *types.Pointer:
+			if tr.eng.sorts.typeName(u.Elem()) == n {
+				return "ptr"
+			}
+		case *types.Slice:
+			if p, ok := u.Elem().Underlying().(*types.Pointer); ok && tr.eng.sorts.typeName(p.Elem()) == n {
+				return "slice"
+			}
+		case *types.Map:
+			if p, ok := u.Elem().Underlying().(*types.Pointer); ok && tr.eng.sorts.typeName(p.Elem()) == n {
+				return "map"
+			}
+		}
+	}
+	return ""
+}
+
+func (tr *Trans) checkIsolation(valT types.Type, val string, pos token.Pos, what string) {
+	k := tr.isolatedType(valT)
+	if k == "" {
+		return
+	}
+	ref := val
+	if k == "slice" {
+		ref = "(s_arr " + val + ")"
+	}
+	tr.cur.assert(fmt.Sprintf("(or (= %s 0) (> %s epoch))", ref, ref), tr.ob("fresh", what, pos, "a stored "+tr.eng.sorts.typeName(valT)+" must be nil or allocated during this API call (no sharing with pre-existing trees)", tr.eng.propsFor(tr.name, "fresh")))
 }
